@@ -91,7 +91,67 @@ def run_unit(A, unit, rep, tier):
                 )
 
 
+def check_context_flag(A, rep):
+    """(d) a collection has ONE load-and-save context object per kind, shared by every operation and every thread
+    that uses the collection.  The attribute its __enter__ tests to decide whether to load is therefore fixed at
+    construction: a write context that is switched to 'do not load' for one operation also switches it off for a
+    concurrent writer (and, when the restore is skipped by an exception, for every later operation), which then
+    saves its stale tree over other handles' changes."""
+    import ast
+    allc = list(A.model.classes.values())
+    # the write contexts: classes with __enter__/__exit__ whose __enter__ calls <collection>._load()
+    def enters_with_load(c):
+        for st in c.node.body:
+            if isinstance(st, ast.FunctionDef) and st.name == "__enter__":
+                return any(isinstance(x, ast.Call) and isinstance(x.func, ast.Attribute) and x.func.attr == "_load" for x in ast.walk(st))
+        return False
+    ctx_classes = {c for c in allc if enters_with_load(c)}
+    if not ctx_classes:
+        raise AnalysisError("anchor: no load-and-save context class found (a class whose __enter__ calls _load()); not decided")
+    family = {c for c in allc if any(c is k or c.is_subclass_of(k.name) for k in ctx_classes)}
+    flags = set()
+    for c in family:
+        for st in c.node.body:
+            if isinstance(st, ast.FunctionDef) and st.name == "__enter__":
+                for n in ast.walk(st):
+                    if isinstance(n, ast.If):
+                        loads = any(isinstance(x, ast.Call) and isinstance(x.func, ast.Attribute) and x.func.attr == "_load" for b_ in n.body for x in ast.walk(b_))
+                        if loads:
+                            for x in ast.walk(n.test):
+                                if isinstance(x, ast.Attribute) and isinstance(x.value, ast.Name) and x.value.id == "self":
+                                    flags.add(x.attr)
+    if not flags:
+        rep.ok("C04.d", "C04.d the write context's __enter__ loads unconditionally (no load flag)")
+        return
+    fam_names = {c.name for c in family}
+    bad = []
+    for f in A.model.functions:
+        in_ctor = f.cls is not None and f.cls.name in fam_names and f.name == "__init__"
+        for n in ast.walk(f.node):
+            tg = []
+            if isinstance(n, ast.Assign):
+                tg = n.targets
+            elif isinstance(n, (ast.AugAssign, ast.AnnAssign)):
+                tg = [n.target]
+            for t in tg:
+                for x in ast.walk(t):
+                    if isinstance(x, ast.Attribute) and x.attr in flags and isinstance(x.ctx, ast.Store):
+                        own_self = isinstance(x.value, ast.Name) and x.value.id == "self"
+                        if in_ctor and own_self:
+                            continue
+                        if own_self and (f.cls is None or f.cls.name not in fam_names):
+                            continue  # an attribute of the same name on another kind of object
+                        bad.append((f, n))
+    if not bad:
+        rep.ok("C04.d", f"C04.d the load flag ({', '.join(sorted(flags))}) of the shared write contexts is assigned only in their constructors")
+    for f, n in bad:
+        rep.fail("C04.d", norm_key("C04.d", f.qualname),
+                 f"{f.qualname}: `{ast.unparse(n)}` changes the load flag of a write context after construction; the context object is shared by all operations and threads of the collection, so a concurrent or "
+                 "later writer skips its load and saves a stale tree over other handles' changes", [f"{f.module.path}:{n.lineno}: {ast.unparse(n)}"], f.qualname)
+
+
 def check_loaders(A, rep):
+    check_context_flag(A, rep)
     seen = {}
     for cls in A.concrete():
         owner, v = A.model.lookup(cls, "_load_from_resource")
